@@ -92,7 +92,7 @@ def build_props(race=False, fuzz=False):
     cmd.append("./props")
     lock = build_lock()
     try:
-        p = subprocess.run(cmd, cwd=HARNESS, env=goenv(), stdout=subprocess.PIPE, stderr=subprocess.STDOUT, text=True)
+        p = subprocess.run(cmd, cwd=HARNESS, env=goenv(), stdout=subprocess.PIPE, stderr=subprocess.STDOUT, text=True, errors="replace")
     finally:
         lock.close()
         if tmpmod:
@@ -143,7 +143,7 @@ def build_cmdmain(race=False, fuzz=False):
     cmd.append("./cmd/docker-logql")
     lock = build_lock()
     try:
-        p = subprocess.run(cmd, cwd=REPO, env=goenv(), stdout=subprocess.PIPE, stderr=subprocess.STDOUT, text=True)
+        p = subprocess.run(cmd, cwd=REPO, env=goenv(), stdout=subprocess.PIPE, stderr=subprocess.STDOUT, text=True, errors="replace")
     finally:
         lock.close()
         for fn in (ov, mod, sumf):
@@ -289,7 +289,7 @@ def run_fuzz(binary, target, seconds, workdir, prop, extra_env):
         before = set(os.listdir(crashdir))
     cmd = [binary, "-test.run", "^$", "-test.fuzz", "^%s$" % target, "-test.fuzztime", "%ds" % seconds,
            "-test.fuzzcachedir", cache, "-test.timeout", "%ds" % (seconds + 300), "-test.parallel", str(NCPU)]
-    p = subprocess.run(cmd, cwd=rundir, env=env, stdout=subprocess.PIPE, stderr=subprocess.STDOUT, text=True)
+    p = subprocess.run(cmd, cwd=rundir, env=env, stdout=subprocess.PIPE, stderr=subprocess.STDOUT, text=True, errors="replace")
     execs = 0
     for m in re.finditer(r"execs: (\d+)", p.stdout):
         execs = max(execs, int(m.group(1)))
@@ -310,7 +310,7 @@ def run_fuzz(binary, target, seconds, workdir, prop, extra_env):
             # which a loaded machine can exceed). Run the saved inputs once more, outside the
             # fuzzing engine: only a failure that repeats is a finding.
             again = subprocess.run([binary, "-test.run", "^%s$" % target, "-test.timeout", "600s"], cwd=rundir, env=env,
-                                   stdout=subprocess.PIPE, stderr=subprocess.STDOUT, text=True)
+                                   stdout=subprocess.PIPE, stderr=subprocess.STDOUT, text=True, errors="replace")
             confirmed = again.returncode != 0
         for name in new:
             src = os.path.join(crashdir, name)
@@ -461,7 +461,7 @@ def replay(prop, path):
                 binary = BUILDERS[stage.get("binary", "props")]()
                 break
         p = subprocess.run([binary, "-test.run", "^%s$" % test, "-test.v", "-test.timeout", "300s"], cwd=rundir, env=env,
-                           stdout=subprocess.PIPE, stderr=subprocess.STDOUT, text=True)
+                           stdout=subprocess.PIPE, stderr=subprocess.STDOUT, text=True, errors="replace")
         shutil.rmtree(rundir, ignore_errors=True)
         sys.stderr.write(p.stdout[-6000:])
         if p.returncode != 0:
